@@ -35,13 +35,19 @@ pub enum OpKind {
     CNeg,
     CFma,
     CCube,
+    /// as CMul / CNeg, but the derivative closure is passed to Array::op unconditionally (the natural way to call it):
+    /// the result is tracked and records its operands whether or not any of them is tracked
+    CMulF,
+    CNegF,
+    /// cube whose derivative closure differentiates a private graph of its own (a nested backward pass inside a pass)
+    CNested,
 }
 
 impl OpKind {
     pub fn arity(&self) -> usize {
         use OpKind::*;
         match self {
-            Add | Sub | Mul | Div | Axpy(_) | CMul | CAdd | Conv { .. } => 2,
+            Add | Sub | Mul | Div | Axpy(_) | CMul | CMulF | CAdd | Conv { .. } => 2,
             Matmul { c, .. } => {
                 if *c {
                     3
@@ -79,6 +85,9 @@ impl OpKind {
             CNeg => "custom_neg".into(),
             CFma => "custom_fma".into(),
             CCube => "custom_cube".into(),
+            CMulF => "custom_mul_forced".into(),
+            CNegF => "custom_neg_forced".into(),
+            CNested => "custom_cube_nested".into(),
         }
     }
     /// operation family without parameters (for histograms)
@@ -108,17 +117,24 @@ impl OpKind {
             CNeg => "custom_neg",
             CFma => "custom_fma",
             CCube => "custom_cube",
+            CMulF => "custom_mul_forced",
+            CNegF => "custom_neg_forced",
+            CNested => "custom_cube_nested",
         }
     }
+    /// the derivative closure is passed to Array::op even when no operand is tracked
+    pub fn forces_tracking(&self) -> bool {
+        matches!(self, OpKind::CMulF | OpKind::CNegF)
+    }
     pub fn is_custom(&self) -> bool {
-        matches!(self, OpKind::CMul | OpKind::CAdd | OpKind::CNeg | OpKind::CFma | OpKind::CCube)
+        matches!(self, OpKind::CMul | OpKind::CAdd | OpKind::CNeg | OpKind::CFma | OpKind::CCube | OpKind::CMulF | OpKind::CNegF | OpKind::CNested)
     }
     /// integer data stays integer (bit-exact in any evaluation order while magnitudes stay below the bound)
     pub fn is_exact(&self) -> bool {
         use OpKind::*;
         match self {
             Add | Sub | Mul | Neg | Relu | Sum(_) | Reshape(_) | Matmul { .. } | Conv { .. } | CMul | CAdd | CNeg
-            | CFma | CCube => true,
+            | CFma | CCube | CMulF | CNegF | CNested => true,
             Scale(s) | Axpy(s) => s.fract() == 0.0,
             _ => false,
         }
@@ -163,15 +179,15 @@ impl OpKind {
             Reshape(d) => a[0].reshape(d)?,
             Matmul { ta, tb, c } => T::matmul(a[0], *ta, a[1], *tb, if *c { Some(a[2]) } else { None })?,
             Conv { sr, sc } => T::conv(a[0], a[1], *sr, *sc)?,
-            CMul => same(a[0], a[1])?.zip(a[1], |x, y| x * y)?,
+            CMul | CMulF => same(a[0], a[1])?.zip(a[1], |x, y| x * y)?,
             CAdd => same(a[0], a[1])?.zip(a[1], |x, y| x + y)?,
-            CNeg => a[0].map(|x| -x),
+            CNeg | CNegF => a[0].map(|x| -x),
             CFma => {
                 same(a[0], a[1])?;
                 same(a[0], a[2])?;
                 a[0].zip(a[1], |x, y| x * y)?.zip(a[2], |p, z| p + z)?
             }
-            CCube => a[0].map(|x| x * x * x),
+            CCube | CNested => a[0].map(|x| x * x * x),
         })
     }
 
@@ -196,7 +212,7 @@ impl OpKind {
             Reshape(d) => a[0].reshape(d.clone()),
             Matmul { ta, tb, c } => Array::matmul((a[0], *ta), (a[1], *tb), if *c { Some(a[2]) } else { None }),
             Conv { sr, sc } => a[0].conv(a[1], (*sr, *sc)),
-            CMul | CAdd | CNeg | CFma | CCube => custom_op(self, a, node_id),
+            CMul | CAdd | CNeg | CFma | CCube | CMulF | CNegF | CNested => custom_op(self, a, node_id),
         }
     }
 }
@@ -255,9 +271,9 @@ fn custom_op(kind: &OpKind, args: &[&Array], node_id: usize) -> Array {
             assert_eq!(o.dimensions(), x[0].dimensions(), "custom op: operands must have the same shape");
         }
         let v: Vec<Float> = match k {
-            OpKind::CMul => x[0].values().iter().zip(x[1].values()).map(|(a, b)| a * b).collect(),
+            OpKind::CMul | OpKind::CMulF => x[0].values().iter().zip(x[1].values()).map(|(a, b)| a * b).collect(),
             OpKind::CAdd => x[0].values().iter().zip(x[1].values()).map(|(a, b)| a + b).collect(),
-            OpKind::CNeg => x[0].values().iter().map(|a| -a).collect(),
+            OpKind::CNeg | OpKind::CNegF => x[0].values().iter().map(|a| -a).collect(),
             OpKind::CFma => x[0]
                 .values()
                 .iter()
@@ -288,12 +304,23 @@ fn custom_op(kind: &OpKind, args: &[&Array], node_id: usize) -> Array {
         let dv = d.values();
         let opt = |i: usize, v: Vec<Float>| if t[i] { mk(v) } else { None };
         match k2 {
-            OpKind::CMul => vec![
+            OpKind::CNested => {
+                // derivative by a nested pass over a private graph: y = p*p*p on a tracked private copy of the operand
+                if !t[0] {
+                    return vec![None];
+                }
+                let p = Array::from((c[0].dimensions().to_vec(), c[0].values().to_vec())).tracked();
+                let y = &(&p * &p) * &p;
+                y.backward(Some(Array::from((d.dimensions().to_vec(), dv.to_vec()))));
+                let g = p.gradient().as_ref().map(|g| g.values().to_vec()).unwrap_or_else(|| vec![0.0 as Float; dv.len()]);
+                vec![mk(g)]
+            }
+            OpKind::CMul | OpKind::CMulF => vec![
                 opt(0, dv.iter().zip(c[1].values()).map(|(a, b)| a * b).collect()),
                 opt(1, dv.iter().zip(c[0].values()).map(|(a, b)| a * b).collect()),
             ],
             OpKind::CAdd => vec![opt(0, dv.to_vec()), opt(1, dv.to_vec())],
-            OpKind::CNeg => vec![opt(0, dv.iter().map(|a| -a).collect())],
+            OpKind::CNeg | OpKind::CNegF => vec![opt(0, dv.iter().map(|a| -a).collect())],
             OpKind::CFma => vec![
                 opt(0, dv.iter().zip(c[1].values()).map(|(a, b)| a * b).collect()),
                 opt(1, dv.iter().zip(c[0].values()).map(|(a, b)| a * b).collect()),
@@ -303,7 +330,7 @@ fn custom_op(kind: &OpKind, args: &[&Array], node_id: usize) -> Array {
         }
     });
     // the caller decides tracking of a custom node by passing a derivative or not (as the built-in ops do)
-    if args.iter().any(|x| is_tracked(x)) {
+    if kind.forces_tracking() || args.iter().any(|x| is_tracked(x)) {
         Array::op(args, f, Some(b))
     } else {
         Array::op(args, f, None)
@@ -506,7 +533,7 @@ pub fn eval_ref<S: Sc>(
                     args.iter().map(|a| if flags[*a] { v[*a].clone() } else { v[*a].map(|x| x.detach()) }).collect();
                 let refs: Vec<&T<S>> = detached.iter().collect();
                 let mut r = kind.apply_ref(&refs)?;
-                let mut f = args.iter().any(|a| flags[*a]);
+                let mut f = args.iter().any(|a| flags[*a]) || kind.forces_tracking();
                 if kind.is_alias() {
                     f = flags[args[0]];
                     r = v[args[0]].clone();
@@ -835,7 +862,7 @@ pub fn current_flags(p: &Program) -> Vec<bool> {
                 for (h, on) in pre {
                     flags[*h] = *on;
                 }
-                let mut f = args.iter().any(|a| flags[*a]);
+                let mut f = args.iter().any(|a| flags[*a]) || kind.forces_tracking();
                 if kind.is_alias() {
                     f = flags[args[0]];
                 }
@@ -878,6 +905,11 @@ pub fn try_add_op(r: &mut Rng, cfg: &GenCfg, st: &mut GenState) {
         }
         cands.push((OpKind::CNeg, vec![a]));
         cands.push((OpKind::CCube, vec![a]));
+        cands.push((OpKind::CNegF, vec![a]));
+        cands.push((OpKind::CNested, vec![a]));
+        if samea {
+            cands.push((OpKind::CMulF, vec![a, b]));
+        }
         // an alias of a user-defined node (same node, shared slot): built-in `sum(0)`
         if r.chance(1, 3) {
             cands.push((OpKind::Sum(0), vec![a]));
@@ -921,6 +953,11 @@ pub fn try_add_op(r: &mut Rng, cfg: &GenCfg, st: &mut GenState) {
             }
             cands.push((OpKind::CNeg, vec![a]));
             cands.push((OpKind::CCube, vec![a]));
+            cands.push((OpKind::CNegF, vec![a]));
+            cands.push((OpKind::CNested, vec![a]));
+            if samea {
+                cands.push((OpKind::CMulF, vec![a, b]));
+            }
         }
         if !cfg.exact_only {
             if in_range(&st.refv[a], 0.25, 8.0) {
@@ -992,9 +1029,9 @@ pub fn try_add_op(r: &mut Rng, cfg: &GenCfg, st: &mut GenState) {
     if cfg.exact_only {
         // keep shadows small enough that certification usually succeeds
         let sh: f64 = match &kind {
-            OpKind::Mul | OpKind::CMul => st.shadow[args[0]] * st.shadow[args[1]],
+            OpKind::Mul | OpKind::CMul | OpKind::CMulF => st.shadow[args[0]] * st.shadow[args[1]],
             OpKind::CFma => st.shadow[args[0]] * st.shadow[args[1]] + st.shadow[args[2]],
-            OpKind::CCube => st.shadow[args[0]].powi(3),
+            OpKind::CCube | OpKind::CNested => st.shadow[args[0]].powi(3),
             OpKind::Matmul { .. } | OpKind::Conv { .. } => {
                 st.shadow[args[0]] * st.shadow[args[1]] * 30.0 + args.get(2).map(|c| st.shadow[*c]).unwrap_or(0.0)
             }
